@@ -1,9 +1,9 @@
 SPECIFICATION Spec
 CONSTANTS
-  OptSet <- OptsPlain
-  CallSet <- SingleCalls
-  ChangeSet <- MoveChanges
-  MaxCalls = 1
+  OptSet <- OptsOne
+  CallSet <- AskNewCalls
+  ChangeSet <- AskNewChanges
+  MaxCalls = 2
   MaxChanges = 1
   MaxGen = 3
   MaxAtt = 3
@@ -14,7 +14,7 @@ CONSTANTS
   BugTxNoMulti = FALSE
   BugPredIgnored = FALSE
   BugNodeOrder = FALSE
-  BugMovedIgnored = TRUE
+  BugMovedIgnored = FALSE
   BugMaxOffByOne = FALSE
   BugSelClamp = FALSE
   BugRefreshDropsInit = FALSE
@@ -22,7 +22,6 @@ CONSTANTS
   BugPoolStale = FALSE
   BugStreamKeyless = FALSE
   BugPromoteReplica = FALSE
-INVARIANTS TypeOK RedirectFollowed
+INVARIANTS TypeOK RedirectFollowed AskingPrecedes BoundedRedirects ReachesOwner RetryHonoured BatchOrder TxContiguousOneNode TxResentWhole ReplicaOnlyWhenOptedIn OutOfRangeFallsBackToPrimary NoResendAfterDenied GenDone
 CONSTRAINT GenBound
-VIEW MCView
 CHECK_DEADLOCK FALSE
